@@ -255,6 +255,13 @@ func runC03(ci interface{}) Result {
 			popped[j] = true
 		}
 	}
+	// (a bar whose successors were all created after it had finished may have
+	// been popped before they came)
+	for j := range poppedDespiteSuccessor(sc) {
+		if end[j].Added {
+			popped[j] = true
+		}
+	}
 	kinds := map[string]bool{}
 	for i := range sc.Bars {
 		if !end[i].Added {
